@@ -93,16 +93,17 @@ partial def render : Sexp → String
   | list xs => "(" ++ " ".intercalate (xs.map render) ++ ")"
 
 def tokenize (s : String) : List String :=
+  let flush (cur : List Char) (acc : List String) : List String :=
+    if cur.isEmpty then acc else String.ofList cur.reverse :: acc
   let rec go (cs : List Char) (cur : List Char) (acc : List String) : List String :=
-    let flush := if cur.isEmpty then acc else String.ofList cur.reverse :: acc
     match cs with
-    | [] => flush.reverse
-    | '(' :: r => go r [] ("(" :: flush)
-    | ')' :: r => go r [] (")" :: flush)
-    | ' ' :: r => go r [] flush
-    | '\t' :: r => go r [] flush
-    | '\n' :: r => go r [] flush
-    | '\r' :: r => go r [] flush
+    | [] => (flush cur acc).reverse
+    | '(' :: r => go r [] ("(" :: flush cur acc)
+    | ')' :: r => go r [] (")" :: flush cur acc)
+    | ' ' :: r => go r [] (flush cur acc)
+    | '\t' :: r => go r [] (flush cur acc)
+    | '\n' :: r => go r [] (flush cur acc)
+    | '\r' :: r => go r [] (flush cur acc)
     | c :: r => go r (c :: cur) acc
   go s.toList [] []
 
